@@ -77,12 +77,14 @@ import json
 import math
 import os
 import random
+import shutil
 import tempfile
 from fractions import Fraction
 from statistics import NormalDist
 
 from ..core import Machinery, frac, run_tlc, validate_trace
 from .. import fx_priors as fxp
+from .. import fx_c08samplers as fxs
 
 UN = 16
 ZS = 100
@@ -519,7 +521,7 @@ def tail_region(pt):
 def check_tail(ctx, v, obj, cls, a, b, uni):
     """The clauses of the property on the spec's tail ladder (exported with the vector)."""
     pts, exp = v['tpts'], v['t']
-    vec = dict(call=v['call'], p=v['p'])
+    vec = dict(v['_vec']) if v.get('_vec') else dict(call=v['call'], p=v['p'])
     log_kind = v['space'] == 'log'
     seq = []                                   # (u, got) in increasing order of u: ladder below the grid, grid ends, ladder above
     n_lo = sum(1 for pt in pts if pt['side'] == 'lo')
@@ -590,7 +592,22 @@ def check_tail(ctx, v, obj, cls, a, b, uni):
 
 # ------------------------------------------------------------------ delivery through the optimizer (binding A)
 def dlv_key(v):
-    return json.dumps([v.get('focus', 'model'), v.get('comp', 'alone'), v['pk'], v['route'], v['name'], v['call']], sort_keys=True)
+    return json.dumps([v.get('via', 'direct'), v.get('focus', 'model'), v.get('comp', 'alone'), v['pk'], v['route'], v['name'], v['call']],
+                      sort_keys=True)
+
+
+class CubeCoordinate(object):
+    """One coordinate of the callable a sampler was handed, seen as u -> value at the cube point (u, .., u); the
+    callable is evaluated once per u for all coordinates."""
+
+    def __init__(self, cube_at, idx, pri):
+        self.cube_at, self.idx, self.pri = cube_at, idx, pri
+
+    def sample(self, u):
+        return self.cube_at(u)[self.idx]
+
+    def prior(self, x):
+        return self.pri.prior(x)
 
 
 def fitted_set(v):
@@ -634,7 +651,21 @@ def check_delivery_batch(ctx, batch, rng):
     fitted set is model-only / observation-only / mixed exactly as in the spec): Attach for every fitted parameter of
     either owner, Compile (once or again), then the sampler's step for every u of the grid; what each owner's setter
     receives is compared with the exported value."""
-    opt, owners = fxp.fresh_owners()
+    via = batch[0].get('via', 'direct')
+    tmpdir = None
+    if via == 'direct':
+        opt, owners = fxp.fresh_owners()
+    else:
+        tmpdir = tempfile.mkdtemp(prefix='verifc08_')
+        opt, owners = fxs.fresh_owners(via, tmpdir)
+    try:
+        _delivery_batch(ctx, batch, rng, via, opt, owners)
+    finally:
+        if tmpdir:
+            shutil.rmtree(tmpdir, ignore_errors=True)
+
+
+def _delivery_batch(ctx, batch, rng, via, opt, owners):
     slots = [(v, s) for v in batch for _, s in sorted(v['slots'].items())]
     items = [dlv_item(s, rng) for _, s in slots]
     order = list(range(len(items)))
@@ -651,8 +682,8 @@ def check_delivery_batch(ctx, batch, rng):
     want_names = sorted(it['param'] for it in items)
     live = []
     for (v, s), it in zip(slots, items):
-        cls = dlv_cls(v, s)
-        slim = dict(dlv=True, focus=v['focus'], comp=v['comp'], pk=v['pk'], route=v['route'], name=v['name'], call=v['call'],
+        cls = dlv_cls(v, s) if via == 'direct' else 'via=%s|%s' % (via, dlv_cls(v, s))
+        slim = dict(dlv=True, via=via, focus=v['focus'], comp=v['comp'], pk=v['pk'], route=v['route'], name=v['name'], call=v['call'],
                     owner=s['owner'], slot_call=s['call'], text=it['text'], ncompile=ncompile, mtext=it['mode_switch'])
         direct = describe(klass(s['call']['cls'])(**kwargs_of(s['call'])))
         if sorted(names) != want_names or len(opt.fitting_priors) != len(names):
@@ -668,9 +699,46 @@ def check_delivery_batch(ctx, batch, rng):
                               d['cls'], pri.params(), s['p']['kind'], direct))
         if okp:
             live.append((v, s, it, cls, slim, pri))
+    # who maps the unit cube (MC_PriorDelivery: via): the check itself, or the callable the wrapper hands to its sampler
+    cube_at = None
+    if via != 'direct' and live:
+        n = len(opt.fitting_priors)
+        try:
+            with fxs.fx.quiet_stdout():
+                cube_map = fxs.capture(via, opt)
+        except Machinery:
+            raise
+        except Exception as ex:
+            for v, s, it, cls, slim, pri in live:
+                ctx.verdict('sampler_callable_accepted', False, cls=cls, vector=slim, detail='%s.compute_fit() raised %r before its sampler was called' % (via, ex))
+            return
+        memo = {}
+
+        def cube_at(u):
+            if u not in memo:
+                try:
+                    out = cube_map([u] * n)
+                    memo[u] = out if len(out) == n else RuntimeError('the callable returned %d values for a %d-cube' % (len(out), n))
+                except Machinery:
+                    raise
+                except Exception as ex:
+                    memo[u] = ex
+            if isinstance(memo[u], Exception):
+                raise memo[u]
+            return memo[u]
     for k in range(UN + 1):
         u = k / UN
-        cube = [float(q.sample(u)) for q in opt.fitting_priors]
+        if cube_at is None:
+            cube = [float(q.sample(u)) for q in opt.fitting_priors]
+        else:
+            try:
+                cube = list(cube_at(u))
+            except Exception as ex:
+                for v, s, it, cls, slim, pri in live:
+                    if s['recv'][k]['sp'] != 'none':
+                        ctx.verdict('sampler_callable_accepted', False, cls=cls, vector=dict(slim, k=k),
+                                    detail='the callable %s handed to its sampler raised %r at the cube point u=%d/%d' % (via, ex, k, UN))
+                continue
         before = {o: {n: len(r) for n, r in owners[o].received.items()} for o in owners}
         opt.update_model(cube)
         for v, s, it, cls, slim, pri in live:
@@ -698,6 +766,19 @@ def check_delivery_batch(ctx, batch, rng):
                     it['param'], s['owner'], s['mode'], s['p']['kind'], pri.params(), s['route'], k, UN, detail)
             ctx.verdict('delivered_to_model' if s['owner'] == 'model' else 'delivered_to_observation', ok, cls=cls,
                         vector=dict(slim, k=k), detail=detail)
+    if cube_at is None:
+        return
+    # the rest of the callable's domain: the tail ladder of the specification (SamplerInv), every coordinate of the cube --
+    # the clauses of binding A (exact rational for the uniform kinds, table + inverse-CDF identity for the normal kinds,
+    # monotone, symmetric, finite) on what the SAMPLER gets
+    for v, s, it, cls, slim, pri in live:
+        a, b = float(frac(s['p']['a'])), float(frac(s['p']['b']))
+        uni = s['p']['kind'] in ('Uniform', 'LogUniform')
+        idx = names.index(it['param'])
+        if len(s['t']) != len(v['tpts']):
+            raise Machinery('delivery export: %d ladder values for %d points' % (len(s['t']), len(v['tpts'])))
+        check_tail(ctx, dict(tpts=v['tpts'], t=s['t'], call=s['call'], p=s['p'], space=s['space'], _vec=slim),
+                   CubeCoordinate(cube_at, idx, pri), cls, a, b, uni)
 
 
 def run_delivery(ctx, zf, vecs=None, only=None, started=None):
@@ -712,6 +793,7 @@ def run_delivery(ctx, zf, vecs=None, only=None, started=None):
         else:
             res = ctx.check_spec('delivery', 'MC_PriorDelivery', 'MC_PriorDelivery_%s.cfg' % ctx.tier, need_actions=need, env=env, workers=1)
         ctx.expect_refuted('delivery-by-mode-refuted', 'MC_PriorDelivery', 'MC_PriorDelivery_bymode.cfg', 'DeliveryInv', env=tiny, workers=4)
+        ctx.expect_refuted('delivery-sampler-clips-cube-refuted', 'MC_PriorDelivery', 'MC_PriorDelivery_clipped.cfg', 'SamplerInv', env=tiny, workers=4)
         ctx.expect_refuted('delivery-second-pass-blind-refuted', 'MC_PriorDelivery', 'MC_PriorDelivery_secondblind.cfg',
                            'UserPriorInForceInv', env=tiny, workers=4)
         vecs = res.tagged('DLV')
@@ -722,6 +804,13 @@ def run_delivery(ctx, zf, vecs=None, only=None, started=None):
         crossed = {(s['owner'], s['space'], s['mode']) for v in vecs for s in v['slots'].values()}
         sets = {(v['focus'], v['comp'], tuple(sorted(v['slots']))) for v in vecs}
         given = {(s['owner'], s['role'], s['given']) for v in vecs for s in v['slots'].values()}
+        vias = {(v.get('via'), v['focus'], v['comp'], v['route'], v['call']['cls']) for v in vecs}
+        # every sampler's callable: both owners in focus, the four classes by a user route and the two default classes, a mixed set
+        SAMPLER_VIAS = sampler_vias(ctx.tier)
+        per = {w: {(x[1], x[3] == 'default', x[4]) for x in vias if x[0] == w} for w in SAMPLER_VIAS}
+        mixed = {w: any(x[0] == w and x[2] == 'user' for x in vias) for w in SAMPLER_VIAS}
+        if {x[0] for x in vias} != set(SAMPLER_VIAS) or any(len(per[w]) != 2 * (4 + 2) or not mixed[w] for w in SAMPLER_VIAS):
+            raise Machinery('delivery export: who maps the cube x owner x route x class incomplete: %r' % ({w: sorted(per[w]) for w in per},))
         if len(combos) != 48 or len(routes) != 8 or len(crossed) != 8 or len(given) != 8 or sets != {
                 ('model', 'alone', ('model',)), ('observation', 'alone', ('observation',)),
                 ('model', 'default', ('model', 'observation')), ('observation', 'default', ('model', 'observation')),
@@ -731,7 +820,7 @@ def run_delivery(ctx, zf, vecs=None, only=None, started=None):
     rng = random.Random(ctx.seed * 9176 + 8)
     groups = {}
     for v in vecs:
-        groups.setdefault((v['focus'], v['comp']), {}).setdefault(v['pk'], []).append(v)
+        groups.setdefault((v.get('via', 'direct'), v['focus'], v['comp']), {}).setdefault(v['pk'], []).append(v)
     nb = 0
     for _, bykind in sorted(groups.items()):
         for g in bykind.values():
@@ -757,6 +846,9 @@ def run_delivery(ctx, zf, vecs=None, only=None, started=None):
 
 
 # ------------------------------------------------------------------ one optimizer over its life (binding C, MC_PriorHistory.tla)
+# MC_PriorDelivery_<tier>.cfg: Samplers (dypolychord ignored the priors in force until the L-C08b repair, /repo dd8cbe3)
+def sampler_vias(tier):
+    return ('direct', 'nestle', 'multinest', 'polychord', 'dypolychord')
 HK = (0, 3, 8, 13, 16)                  # grid points at which update_model is observed after every compile
 HIST_ACTIONS = ('mode', 'bounds', 'other', 'prior', 'again')
 
@@ -1611,7 +1703,7 @@ def run(ctx):
                        'TLC + CommunityModules Json/IOUtils']
     verify_ladder_table(['MC_Priors_%s.cfg' % ctx.tier, 'MC_Priors_asgiven.cfg', 'EX_Priors.cfg' if q else 'EX_Priors_thorough.cfg',
                          'Trace_Priors.cfg', 'MC_PriorDelivery_%s.cfg' % ctx.tier, 'MC_PriorDelivery_bymode.cfg',
-                         'MC_PriorDelivery_secondblind.cfg', 'MC_Priors_inplace.cfg', 'MC_PriorHistory_%s.cfg' % ctx.tier,
+                         'MC_PriorDelivery_secondblind.cfg', 'MC_PriorDelivery_clipped.cfg', 'MC_Priors_inplace.cfg', 'MC_PriorHistory_%s.cfg' % ctx.tier,
                          'SIM_PriorHistory.cfg' if q else 'SIM_PriorHistory_thorough.cfg', 'MC_PriorHistory_cached.cfg',
                          'MC_PriorHistory_astyped.cfg', 'MC_PriorHistory_inplace.cfg', 'MC_Priors_coupled.cfg',
                          'MC_PriorObject_%s.cfg' % ctx.tier, 'SIM_PriorObject.cfg' if q else 'SIM_PriorObject_thorough.cfg',
